@@ -106,7 +106,11 @@ func (o *faultOracle) OnWrite(s *Sim, w *Write) {
 			s.probe("c18.br-finalizer-removals")
 			br := w.Old.(*v1beta1.BatchRelease)
 			if wl := s.Store.Peek(ObjKey{GK: workloadGK(o.sc), NS: o.sc.NS, Name: br.Spec.WorkloadRef.Name}); wl != nil && controlledByUID(wl) == string(br.UID) {
-				s.Violate("C18", "F1-finalizer", "F1/batchrelease/"+fam+"/control", w.Seq, "BatchRelease finalizer removed while the workload still carries its control annotation")
+				tag := ""
+				if s.Flags["br-completed-claim-not-seen/"+string(br.UID)] {
+					tag = "/claim-not-seen"
+				}
+				s.Violate("C18", "F1-finalizer", "F1/batchrelease/"+fam+"/control"+tag, w.Seq, "BatchRelease finalizer removed while the workload still carries its control annotation")
 			}
 			for _, k := range s.Store.Keys(gkDeployment) {
 				d := s.Store.Peek(k).(*appsv1.Deployment)
